@@ -509,9 +509,11 @@ impl W {
         let (loc, det) = (o.loc, o.detaches);
         self.idle_ref.retain(|x| *x != id);
         if loc != Loc::Out && !pool_dead && det != 1 {
+            // "those it held are released and detached" is also part of C06 for what close() lets go
+            let during_close = matches!(self.ops.get(op as usize), Some(OpKind::Close));
             self.flag(
                 "released-without-detach",
-                &["C09", "C04", "C03"],
+                if during_close { &["C09", "C04", "C03", "C06"] } else { &["C09", "C04", "C03"] },
                 format!(
                     "object {} was destroyed by a live pool with {} Manager::detach calls (during {:?})",
                     id,
